@@ -150,8 +150,13 @@ class Ctx(object):
 def merge(dumps):
     out = {'counters': collections.Counter(), 'samples': collections.defaultdict(list),
            'witness': collections.defaultdict(list), 'wcount': collections.Counter(),
-           'nontrivial': 0, 'info': {}, 'required': {}, 'inconclusive': [], 'cpu': 0.0}
+           'nontrivial': 0, 'info': {}, 'required': {}, 'inconclusive': [], 'cpu': 0.0, 'cover': None}
     for d in dumps:
+        if d.get('cover') is not None:
+            if out['cover'] is None:
+                out['cover'] = {}
+            for cf, cl in d['cover'].items():
+                out['cover'].setdefault(cf, set()).update(cl)
         out['counters'].update(d['counters'])
         for k, v in d['samples'].items():
             s = out['samples'][k]
@@ -247,6 +252,10 @@ def finish(prop, tier, seed, merged, meta, t0, replay_mode=False):
     }
     for k, v in merged['info'].items():
         cov.setdefault(k, v)
+    from . import cover
+    rep = cover.report(prop, merged.get('cover'))
+    if rep:
+        cov['anchor_line_coverage'] = rep
     if meta.get('explanation'):
         cov['explanation'] = meta['explanation']
     ev = {
@@ -263,6 +272,9 @@ def finish(prop, tier, seed, merged, meta, t0, replay_mode=False):
         # a copy per tier, so that a later quick run does not erase what the last thorough run covered
         os.makedirs(os.path.join(VERIF, 'evidence', tier), exist_ok=True)
         with open(os.path.join(VERIF, 'evidence', tier, '%s.json' % prop), 'w') as f:
+            json.dump(ev, f, indent=1, sort_keys=True)
+    elif not replay_mode:
+        with open(os.path.join(rdir, 'evidence-%s.json' % prop), 'w') as f:      # scratch run: kept out of evidence/
             json.dump(ev, f, indent=1, sort_keys=True)
     if unlisted:
         return 1
